@@ -16,9 +16,9 @@ func init() {
 
 func clusterAlphabet(nodes int) []core.VEvent {
 	var ev []core.VEvent
-	ev = append(ev, core.VEvent{K: "LA", N: 1}, core.VEvent{K: "LA", N: 1, CP: true}, core.VEvent{K: "LA", N: 2}, core.VEvent{K: "LA", N: 2, CP: true})
+	ev = append(ev, core.VEvent{K: "LA", N: 1}, core.VEvent{K: "LA", N: 1, CP: true}, core.VEvent{K: "LA", N: 2}, core.VEvent{K: "LA", N: 2, CP: true}, core.VEvent{K: "LA", N: 1, Fail: true})
 	for n := 0; n < nodes; n++ {
-		ev = append(ev, core.VEvent{K: "RP", Node: n}, core.VEvent{K: "RP", Node: n, N: 1}, core.VEvent{K: "RP", Node: n, Split: true})
+		ev = append(ev, core.VEvent{K: "RP", Node: n}, core.VEvent{K: "RP", Node: n, N: 1}, core.VEvent{K: "RP", Node: n, Split: true}, core.VEvent{K: "RP", Node: n, N: 1, Fail: true})
 	}
 	for n := 0; n < nodes; n++ {
 		ev = append(ev, core.VEvent{K: "LC", Node: n})
@@ -277,9 +277,9 @@ func twinAlphabet(first, last uint64) []core.TOp {
 func runC18() *ShardResult {
 	res := newResult()
 	thorough := *fTier == "thorough"
-	depth, bound, nCP := 5, 3, 3
+	depth, bound, nCP := 5, 3, 4 // 4 checkpoints: one in the callback, one queued, two consecutive drops
 	if thorough {
-		depth, bound, nCP = 6, 4, 4
+		depth, bound, nCP = 6, 4, 5
 	}
 	deadline := time.Now().Add(*fBudget * 2 / 3)
 	res.Bounds["twin_depth"] = depth
